@@ -39,7 +39,12 @@ EXOTIC = [
     ":~ d(X), X > 1. [X@1,X] d(1..3). #maximize { X@2 : d(X) }.",
     "{ shift(D,L) : pshift(D,L) } 1 :- day(D). :~ shift(_,_), foo(L). [L@1] day(1). pshift(1,2). foo(3).",
     "d(1..3). a(X) :- d(X), not not b(X). b(X) :- a(X). :- not a(1), #false.",
-    "d(1..2). a(|X|, -X, ~X, X**2, X\\\\2, X/1, X&1, X?1, X^1) :- d(X).",
+    "d(1..2). a(|X|, -X, ~X, X**2, X\\2, X/1, X&1, X?1, X^1) :- d(X).",
+    # integer corner cases: constants that leave the 32 bit range when multiplied out, zero divisors
+    "w(1). big(W*60000*60000) :- w(W). huge :- w(W), W*65536*65536 > 0.",
+    "v(3). s(S) :- v(V), S = V*100000, B = S*100000, B > 0.",
+    "b(1,2). a(X) :- b(X,Y), X = Y\\0. c(X) :- b(X,Y), X = Y/0.",
+    "n(2147483647). m(X+1) :- n(X). k(X) :- n(Y), X = Y*2-Y*2.",
 ]
 
 
@@ -111,6 +116,10 @@ def run(ctx) -> int:
     for t in EXOTIC:
         for fl in (default, allf, semcheck.flags_only()):
             cases.append((t, fl, "auto", "auto"))
+        # with every predicate declared as output nothing is removed before the later passes see it
+        allp = sorted(semcheck.predicates_of(corpus.parses(t) or []))
+        cases.append((t, default, "auto", allp))
+        cases.append((t, allf, "auto", allp))
     n = 260 if ctx.quick() else 4000
     while len(cases) < n + 3 * len(EXOTIC):
         r = rng.random()
